@@ -114,7 +114,7 @@ func modelOpFailed(tr []fx.Ev, m int) bool {
 }
 
 func sname(sc *fx.Scenario, what string) string {
-	return "s_" + strings.NewReplacer("-", "_", "~", "_").Replace(sc.Name) + "_" + what
+	return "s_" + strings.NewReplacer("-", "_", "~", "_", "!", "_X").Replace(sc.Name) + "_" + what
 }
 
 func coqList(xs []string) string { return "[" + strings.Join(xs, "; ") + "]" }
@@ -261,6 +261,9 @@ func (d *driver) oracle(sc *fx.Scenario, f fx.Fault, obs *fx.Obs, bi *baseInfo) 
 		if extra := obs.State &^ (init | obs.Masks); extra&^ready != 0 {
 			d.fail(sc, f, obs, "mask-of-failed-step-applied", fmt.Sprintf("state %#x of the failed session has bits %#x that no successful step granted", obs.State, extra))
 		}
+		if !injected && sc.WantStreamErr && !obs.StreamErr {
+			d.fail(sc, f, obs, "stream-error-not-reported", "the peer sent a complete stream error in place of its reply and the returned error is not (errors.As) a stream.Error: "+obs.Err)
+		}
 		if !injected && sc.WantOK {
 			d.fail(sc, f, obs, "unfaulted-handshake-fails", "the handshake fails without any fault: "+obs.Err)
 		}
@@ -333,6 +336,17 @@ func (d *driver) enumerate(sc *fx.Scenario) {
 
 	base := d.one(sc, fx.Fault{}, &bi)
 	if base.TimedOut || base.Panic != "" {
+		return
+	}
+	if sc.Lite > 0 {
+		// derived scenario: its prefix is that of the scenario it comes from; enumerate what
+		// is new, the end of the stream and a silent peer at every byte of the replacement
+		for b := sc.Lite; b < bi.total; b++ {
+			d.one(sc, fx.Fault{Kind: "eof", B: b}, &bi)
+			if b%3 == 0 || d.thor {
+				d.one(sc, fx.Fault{Kind: "silent", B: b, Cancel: "blocked"}, &bi)
+			}
+		}
 		return
 	}
 	nRaw := base.RawOps
@@ -476,7 +490,7 @@ func main() {
 		all := append([]*fx.Scenario{}, scens...)
 		for round := 0; round < 4; round++ {
 			for _, sc := range scens {
-				if sc.TLS || sc.NoReseg {
+				if sc.TLS || sc.NoReseg || sc.Lite > 0 {
 					continue
 				}
 				v := *sc
@@ -512,7 +526,7 @@ func main() {
 		}
 		for round := 0; round < rounds; round++ {
 			for _, sc := range scens {
-				if sc.TLS || sc.NoReseg {
+				if sc.TLS || sc.NoReseg || sc.Lite > 0 {
 					continue
 				}
 				v := *sc
